@@ -9,7 +9,8 @@ func ApplyFunc1ArrayType(dest, source NDArrayType, fn func(val ArrayType) ArrayT
 		for i := range destSlice {
 			destSlice[i] = fn(sourceSlice[i])
 		}
-
+		// Unroll may hand out a copy (C-backed arrays): store the result in dest itself
+		dest.CopyFrom(ArrayFromSliceArrayType(destSlice, dest.Shape()))
 		return
 	}
 
@@ -35,7 +36,8 @@ func AddToArrayTypeArray(dest, source NDArrayType) {
 		for i := range destSlice {
 			destSlice[i] += sourceSlice[i]
 		}
-
+		// Unroll may hand out a copy (C-backed arrays): store the result in dest itself
+		dest.CopyFrom(ArrayFromSliceArrayType(destSlice, dest.Shape()))
 		return
 	}
 
